@@ -9,3 +9,35 @@ package client
 //@   call (*http.Client).Do #1 requires !StrictMode || req.URL.Scheme == "https"
 //@   cover call (*http.Client).Do #1
 //@   ensures [strict-refuses-plain-http] old(StrictMode) && old(req.URL.Scheme) != "https" ==> !isNilIface(result.1)
+
+// ---- C20 / C18: redirects. net/http follows redirects itself and asks CheckRedirect before each one
+// (ASSUMED: net/http client.go), so the policy installed on the http.Client is the guard. ----
+
+//@ func checkRedirect
+//@   prop C20 C18
+//@   modifies nothing
+//@   requires req != nil && req.URL != nil
+//@   ensures [strict-redirects-stay-on-https] StrictMode && req.URL.Scheme != "https" ==> !isNilIface(result)
+
+// Every client built here carries that policy.
+//@ func New
+//@   prop C20
+//@   ensures [redirect-policy-installed] result != nil && result.client != nil && result.client.CheckRedirect == checkRedirect
+//@ func NewWithCache
+//@   prop C20 C18
+//@   ensures [redirect-policy-installed] result != nil && result.client != nil && result.client.CheckRedirect == checkRedirect
+//@ func NewWithTLSConfig
+//@   prop C20
+//@   ensures [redirect-policy-installed] result != nil && result.client != nil && result.client.CheckRedirect == checkRedirect
+
+// The same-origin policy: a redirect is followed only to the scheme and host of the original request,
+// and then still subject to the general policy.
+//@ func (*StrictHTTPClient).SameOriginRedirectsOnly$1
+//@   prop C18 C20
+//@   requires req != nil && req.URL != nil && len(via) > 0 && via[0] != nil && via[0].URL != nil
+//@   ensures [other-origin-refused] isNilIface(result) ==> req.URL.Scheme == via[0].URL.Scheme && req.URL.Host == via[0].URL.Host
+//@        && did(call checkRedirect #1) && isNilIface(ret(call checkRedirect #1)) && arg(call checkRedirect #1, 0) == req
+//@ func (*StrictHTTPClient).SameOriginRedirectsOnly
+//@   prop C18
+//@   requires s != nil && s.client != nil
+//@   ensures [policy-replaced-on-this-client] result == s && s.client.CheckRedirect != nil
